@@ -5,6 +5,7 @@
 //! system, libc fd-level models) lives here. Every function in this crate that is used as a
 //! `#[kani::stub]` replacement is part of the claim of the harness that uses it (DESIGN.md 3.3).
 #![feature(c_variadic)]
+#![feature(pattern)]
 #![feature(allocator_api)]
 #![allow(non_camel_case_types, unused, static_mut_refs, clippy::all)]
 
@@ -452,7 +453,41 @@ pub fn tlbuf_len() -> usize {
 }
 
 pub mod stdmodels;
-pub use stdmodels::{pathm, set_extension_model};
+pub use stdmodels::{pathm, set_extension_model, strm};
+
+// Generic front ends of the string models (same signatures as the std methods they replace).
+// Patterns other than a string / an ASCII char are outside the model and reported as a failure.
+fn pat_bytes<'a, P: std::str::pattern::Pattern + 'a>(pat: &'a P, one: &'a mut [u8; 1]) -> &'a [u8] {
+    match pat.as_utf8_pattern() {
+        Some(std::str::pattern::Utf8Pattern::StringPattern(b)) => b.as_bytes(),
+        Some(std::str::pattern::Utf8Pattern::CharPattern(c)) if c.is_ascii() => {
+            one[0] = c as u8;
+            &one[..]
+        }
+        _ => panic!("str pattern model: pattern kind outside the model"),
+    }
+}
+pub fn str_find_model<P: std::str::pattern::Pattern>(s: &str, pat: P) -> Option<usize> {
+    let mut one = [0u8; 1];
+    let n = pat_bytes(&pat, &mut one);
+    stdmodels::strm::find(s.as_bytes(), n)
+}
+pub fn str_contains_model<P: std::str::pattern::Pattern>(s: &str, pat: P) -> bool {
+    let mut one = [0u8; 1];
+    let n = pat_bytes(&pat, &mut one);
+    stdmodels::strm::find(s.as_bytes(), n).is_some()
+}
+// `OsStr::to_string_lossy` / `Path::to_string_lossy` for ASCII content (std runs Utf8Chunks): the
+// identity. Non-ASCII content is outside the model and reported as a failure.
+pub fn osstr_to_string_lossy_model(s: &std::ffi::OsStr) -> std::borrow::Cow<'_, str> {
+    use std::os::unix::ffi::OsStrExt;
+    let b = s.as_bytes();
+    assert!(stdmodels::strm::is_ascii(b), "to_string_lossy model: non-ASCII content");
+    std::borrow::Cow::Borrowed(unsafe { std::str::from_utf8_unchecked(b) })
+}
+pub fn path_to_string_lossy_model(p: &std::path::Path) -> std::borrow::Cow<'_, str> {
+    osstr_to_string_lossy_model(p.as_os_str())
+}
 
 // ---------------------------------------------------------------------------------------------
 /// A `std::fs::Metadata` value for the metadata model: its fields are never read by the real
